@@ -85,6 +85,15 @@ func genC02(r *simrt.Rand, tier string, idx uint64) *Plan {
 	for c := 0; c < nclients; c++ {
 		cp := ClientPlan{Conn: r.Intn(len(p.Conns))}
 		cp.Ops = mixedOps(r, 1+r.Intn(8), &big, []string{"go", "go", "rt", "rt", "call", "ctx"})
+		if r.Chance(1, 3) {
+			// a call abandoned by its context, then a call that is outstanding when the late response
+			// arrives: it must be completed once, by its own response
+			d := 300 + r.Intn(1500)
+			ab := Op{Kind: "ctx", Shape: r.Intn(4), Size: r.Intn(64), Rep: r.Intn(64), CtxBuf: -1, Flags: FlSlow, Arg: uint32(d), Timeout: d / 3}
+			nx := Op{Kind: []string{"go", "rt"}[r.Intn(2)], Shape: r.Intn(4), Size: r.Intn(64), Rep: r.Intn(64), CtxBuf: -1, Flags: FlSlow, Arg: uint32(2*d + r.Intn(1000))}
+			at := r.Intn(len(cp.Ops) + 1)
+			cp.Ops = append(cp.Ops[:at:at], append([]Op{ab, nx}, cp.Ops[at:]...)...)
+		}
 		p.Clients = append(p.Clients, cp)
 	}
 	total := 0
@@ -337,6 +346,16 @@ func genC04(r *simrt.Rand, tier string, idx uint64) *Plan {
 			f.Kind, f.AtOp, f.Side, f.Offset = "cut", 0, r.Intn(2), int64(r.Intn(1500))
 		}
 		p.Faults = append(p.Faults, f)
+	} else if idx%7 == 6 && p.Codec != "bytes" && p.Conns[0].Server == 0 {
+		// a peer that writes a burst of well-formed requests and closes its side at once (FIN after the
+		// last byte): everything the server received is still executed, once
+		var ops []PuppetOp
+		for i := 0; i < 1+r.Intn(8); i++ {
+			ops = append(ops, PuppetOp{Kind: "valid", Size: r.Intn(40)})
+		}
+		ops = append(ops, PuppetOp{Kind: "close"})
+		p.Puppets = [][]PuppetOp{ops}
+		p.Params = map[string]int{"burstfin": 1}
 	} else if idx%5 == 4 && p.Codec != "bytes" && p.Conns[0].Server == 0 {
 		// a peer that sends pings carrying other upgrade bits, method names and bodies
 		if len(p.Streams) == 0 {
@@ -452,6 +471,16 @@ func checkC04(w *World, run *simrt.Run) {
 			}
 		}
 	}
+	if w.P.Params["burstfin"] == 1 {
+		for _, pc := range w.Puppets {
+			for _, id := range pc.sent {
+				if n := len(execs[id]); n != 1 {
+					w.Violate("C04.lost-execution", "request-received-before-disconnect-executions!=1", fmt.Sprintf("request id %d was written completely before the peer closed its side (FIN), its handler ran %d times", id, n))
+				}
+			}
+			w.Probes["burst-then-fin-requests"] += len(pc.sent)
+		}
+	}
 	faultFree := len(w.P.Faults) == 0
 	for _, c := range w.Calls {
 		if c.Form == "ping" {
@@ -521,7 +550,7 @@ func genC05(r *simrt.Rand, tier string, idx uint64) *Plan {
 			cp := ClientPlan{Conn: ci}
 			n := 2 + r.Intn(10)
 			for i := 0; i < n; i++ {
-				op := Op{Kind: "gos", Shape: r.Intn(4), Size: genSize(r, &big), Rep: genSize(r, &big), CtxBuf: -1}
+				op := Op{Kind: []string{"gos", "gos", "rts"}[r.Intn(3)], Shape: r.Intn(4), Size: genSize(r, &big), Rep: genSize(r, &big), CtxBuf: -1}
 				if r.Chance(1, 8) {
 					op.Bad = []string{"method", "args"}[r.Intn(2)] // rejected before any handler runs
 				} else if r.Chance(1, 3) {
@@ -547,7 +576,7 @@ func genC05(r *simrt.Rand, tier string, idx uint64) *Plan {
 		for i := range p.Clients {
 			for j := range p.Clients[i].Ops {
 				op := &p.Clients[i].Ops[j]
-				if op.Kind == "gos" && op.Bad == "" && op.Flags&FlFail == 0 && r.Chance(1, 2) {
+				if (op.Kind == "gos" || op.Kind == "rts") && op.Bad == "" && op.Flags&FlFail == 0 && r.Chance(1, 2) {
 					op.Flags |= FlSlow
 					op.Arg = uint32(50 + r.Intn(400))
 				}
